@@ -239,7 +239,11 @@ func (o *waterOut) runLine() string {
 
 // waterOptClass draws the generator class of one whole-run case.
 func waterOptClass(r *vh.Rng, k int) (proj.Opt, string) {
-	switch k % 8 {
+	switch k % 10 {
+	case 8:
+		return proj.Opt{Management: true}, "auto-irrigation"
+	case 9:
+		return proj.Opt{Management: true, Drain: r.Chance(0.3)}, "auto-management"
 	case 0:
 		return proj.Opt{}, "plain"
 	case 1:
@@ -271,9 +275,32 @@ func waterRunStage(c *vh.Ctx, runs int) {
 		if tag == "extreme-rain" || tag == "thin-extreme" {
 			steerManySubsteps(r, p)
 		}
+		if tag == "auto-irrigation" || tag == "auto-management" {
+			p.Cfg["AutoIrrigation"] = "1"
+			if tag == "auto-management" {
+				p.Cfg["AutoSowingHarvest"], p.Cfg["AutoHarvest"], p.Cfg["AutoFertilization"] = "1", "1", "1"
+			}
+		}
 		if err := p.Write(c.Scratch, c.Repo); err != nil {
 			c.Violate("search", "harness:write", err.Error(), nil)
 			return
+		}
+		if tag == "auto-irrigation" || tag == "auto-management" {
+			// automatic-management table for every crop of the rotation (generator of the C16 check)
+			var entries []proj.AutoEntry
+			seen := map[string]bool{}
+			for _, re := range p.Rot {
+				for _, cc := range proj.Crops {
+					if cc.Code == re.Crop && !seen[cc.Code] {
+						seen[cc.Code] = true
+						entries = append(entries, genAutoEntry(r, cc))
+					}
+				}
+			}
+			if err := p.WriteAutoman(c.Scratch, entries); err != nil {
+				c.Violate("search", "harness:write", err.Error(), nil)
+				return
+			}
 		}
 		o := &waterRunObserver{c: c, p: p, tag: tag, measZ: map[int]bool{}, sample: r.Fork()}
 		for _, m := range p.Meas {
